@@ -212,6 +212,8 @@ def run(model: Model, rep: Report) -> None:
     # ---------------------------------------------------------------- R5
     _png_filters(model, rep, png)
 
+    # ---------------------------------------------------------------- R7
+    _lzw(model, rep)
     # ---------------------------------------------------------------- R6
     r6 = rep.rule("C03-R6", "ORDER", "payload delimitation: starts after the line holding `stream`, has /Length bytes, untouched outside fallback mode", 4)
     dk = model.func("pdfminer.pdfparser.PDFParser.do_keyword")
@@ -292,3 +294,33 @@ def _png_filters(model: Model, rep: Report, png: FuncInfo) -> None:
     r5.check("paeth=paeth_predictor(raw_x_bpp,prior_x,prior_x_bpp)" in s4 and "raw_x_bpp=int(raw[j-bpp])" in s4 and "prior_x_bpp=int(line_above[j-bpp])" in s4 and "prior_x=int(line_above[j])" in s4 and "raw_x=paeth_x+paeth&255" in s4, site(png), png.qualname, "Paeth: predictor(left = Raw(x-bpp), above = Prior(x), upper-left = Prior(x-bpp))", why=s4[:240])
     src = unparse(png.node).replace(" ", "")
     r5.check("line_above=raw" in src and "range(0,len(data),nbytes+1)" in src and "filter_type=data[scanline_i]" in src and "line_encoded=data[scanline_i+1:scanline_i+1+nbytes]" in src, site(png), png.qualname, "rows are 1 + nbytes long: type byte, then data; each decoded row becomes the next prior row", why="row framing changed")
+
+
+def _lzw(model: Model, rep: Report) -> None:
+    r7 = rep.rule("C03-R7", "WRITESET", "LZW decoder: the clear-table code re-establishes the whole initial dictionary state; code widths grow at 511/1023/2047 (7.4.4.2)", 4)
+    init = model.func("pdfminer.lzw.LZWDecoder.__init__")
+    feed = model.func("pdfminer.lzw.LZWDecoder.feed")
+    from ..util import self_fields_written
+
+    init_fields = {k: unparse(v[0].value) for k, v in self_fields_written(init).items() if isinstance(v[0], (ast.Assign, ast.AnnAssign))}
+    clear = None
+    for n in walk_no_nested(feed.node):
+        if isinstance(n, ast.If) and unparse(n.test).replace(" ", "") == f"{feed.params[1]}==256":
+            clear = n
+    if clear is None:
+        raise AnchorMissing("LZWDecoder.feed: clear-table branch (code == 256) not found")
+    written = {}
+    for st in clear.body:
+        for n in [st] + list(walk_no_nested(st)):
+            if isinstance(n, ast.Assign) and unparse(n.targets[0]).startswith("self."):
+                written[unparse(n.targets[0])[5:]] = unparse(n.value)
+    dict_state = {"table", "prevbuf", "nbits"}
+    missing = sorted(dict_state - set(written))
+    r7.check(not missing, site(feed, clear), feed.qualname, "clear-table (256) resets table, prevbuf and nbits", why=f"not reset: {missing} - after a mid-stream clear the decoder keeps the old code width/dictionary and mis-frames the rest of the data")
+    r7.check(written.get("nbits") == init_fields.get("nbits") == "9", site(feed, clear), feed.qualname, "after a clear the code width is 9 bits again, as at the start", why=f"clear sets nbits={written.get('nbits')}, __init__ sets {init_fields.get('nbits')}")
+    src = "".join(unparse(feed.node).split())
+    r7.check("iftable_length==511:self.nbits=10eliftable_length==1023:self.nbits=11eliftable_length==2047:self.nbits=12" in src, site(feed), feed.qualname, "the code width grows to 10/11/12 bits when the table reaches 511/1023/2047 entries (early change)", why="width thresholds changed")
+    r7.check("self.table=[bytes((c,))forcinrange(256)]" in src and src.count("self.table.append(None)") == 2 and f"elif{feed.params[1]}==257:pass" in src, site(feed), feed.qualname, "the initial table has the 256 single bytes plus the clear (256) and EOD (257) slots", why="initial table changed")
+    rb = model.func("pdfminer.lzw.LZWDecoder.readbits")
+    s2 = "".join(unparse(rb.node).split())
+    r7.check("v=v<<bits|self.buff>>r-bits&(1<<bits)-1" in s2 and "v=v<<r|self.buff&(1<<r)-1" in s2 and "r=8-self.bpos" in s2, site(rb), rb.qualname, "codes are read most significant bit first across byte boundaries", why="bit reader changed")
